@@ -582,6 +582,12 @@ ssize_t write(int fd, const void* buf, size_t n) {
   }
   return f(fd, buf, n);
 }
+typedef ssize_t (*send_fn)(int, const void*, size_t, int);
+ssize_t send(int fd, const void* buf, size_t n, int flags) {
+  REAL(f, send_fn, "send");
+  if (g_active && t_self >= 0) point(OP_STEP, "send");
+  return f(fd, buf, n, flags);
+}
 typedef int (*close_fn)(int);
 int close(int fd) {
   REAL(f, close_fn, "close");
